@@ -11,7 +11,7 @@ type string = Stdlib.String.t
 open Gen
 
 let engine = "c12"
-let rule = "files: written by the real writer (none/snappy/zlib/lz4/zstd, several blocks, block lengths covering every residue mod 8). Damage, per block i in {every data block, index block}: a flip in the first / last payload byte, in each of the four checksum bytes, bursts of 2..32 bits at random positions inside payload+checksum, 1-3 random flips. Observations: mtbl_verify exit status; a verify_checksums reader running (a) full iteration (b) get of a key in block i (c) iterator on block 0 then seek into block i (d) get_prefix / get_range reaching block i; the number of entries it returned before stopping. Non-trivial: every damaged case; distinct by (file, damage)."
+let rule = "files: written by the real writer (none/snappy/zlib/lz4/zstd, several blocks, block lengths covering every residue mod 8). Damage, per block i in {every data block, index block}: a flip in the first / last payload byte, in each of the four checksum bytes, bursts of 2..32 bits at random positions inside payload+checksum, 1-3 random flips. Observations: mtbl_verify exit status; a verify_checksums reader running (a) full iteration (b) get of a key in block i (c) iterator on block 0 then seek into block i (d) get_prefix / get_range reaching block i (e) on one reader, a lookup and a seek that load the LAST block first and then go back into block i; the number of entries it returned before stopping. Non-trivial: every damaged case; distinct by (file, damage)."
 
 let verify_bin () = Filename.concat (try Sys.getenv "VERIF_BUILD" with Not_found -> "/verif/build") "bin/mtbl_verify"
 (* the environment override of the reader's madvise option (MTBL_READER_MADVISE_RANDOM: not set, "0", "1", other)
@@ -25,9 +25,11 @@ let run_verify path : int =
 
 (* a verifying reader in a child; returns (how it ended, entries returned) *)
 type rop = RIterAll | RGet of string | RSeekInto of string | RPrefix of string | RRange of string * string
+         | RAfterLater of string * string   (* on ONE reader: first a lookup that loads a later block, then the lookup into the damaged one *)
 let rop_json = function
   | RIterAll -> JS "iterate" | RGet k -> JL [ JS "get"; jbytes k ] | RSeekInto k -> JL [ JS "iter;next;seek"; jbytes k ]
   | RPrefix k -> JL [ JS "get_prefix"; jbytes k ] | RRange (a, b) -> JL [ JS "get_range"; jbytes a; jbytes b ]
+  | RAfterLater (l, k) -> JL [ JS "get(later key);get"; jbytes l; jbytes k ]
 let run_reader path (op : rop) : string * (string * string) list =
   match in_child (fun () ->
       (match env_value () with Some v -> Unix.putenv "MTBL_READER_MADVISE_RANDOM" v | None -> ());
@@ -43,6 +45,14 @@ let run_reader path (op : rop) : string * (string * string) list =
          | RGet k -> drain (Rd.c_source_get src k)
          | RPrefix k -> drain (Rd.c_source_get_prefix src k)
          | RRange (a, b) -> drain (Rd.c_source_get_range src a b)
+         | RAfterLater (l, k) ->
+           let it0 = Rd.c_source_get src l in
+           if it0 <> 0n then (ignore (Rd.c_iter_next it0); Rd.c_iter_destroy it0);
+           (* a seek backwards from the later block as well *)
+           let it1 = Rd.c_source_iter src in
+           ignore (Rd.c_iter_seek it1 l); ignore (Rd.c_iter_next it1); ignore (Rd.c_iter_seek it1 k);
+           (match Rd.c_iter_next it1 with Some e -> out := e :: !out | None -> ());
+           drain (Rd.c_source_get src k)
          | RSeekInto k ->
            let it = Rd.c_source_iter src in
            (match Rd.c_iter_next it with Some _ -> () | None -> ());
@@ -162,6 +172,7 @@ let run ~tier ~seed ~only acc =
                 let allowed = if i = nb then 0 else base_count i in
                 let ops = [ RIterAll ] @ (match keys with
                     | k :: _ -> [ RGet k; RSeekInto k; RPrefix (String.sub k 0 (String.length k - 1)); RRange (k, k ^ "\xff") ]
+                                @ (match List.rev es with (lk, _) :: _ when not (List.mem lk keys) -> [ RAfterLater (lk, k) ] | _ -> [])
                     | [] -> [ RGet "key000"; RSeekInto "key010" ]) in
                 List.iter (fun op ->
                   let (how, got) = run_reader cpath op in
